@@ -515,7 +515,7 @@ UNITS = {
             _lazy("contracts.sphere_header", "unit_parse", "C11"), _lazy("contracts.readers_audio", "unit_readers_audio", "C11"),
             # the SPHERE clause of C11 goes through the same reader functions as C12: same contracts, replayed by the C12 stand-in
             unit_copy_samples("C11"), _lazy("contracts.sphere_header", "unit_sphere_read_signal", "C11")],
-    "C16": [unit_std("C16", "accumulate_vector"), unit_std("C16", "apply_vector"), unit_std("C16", "have_stats"), unit_std_tensor("C16"), unit_std_apply_tensor("C16"), _lazy("contracts.standardize", "unit_dispatch", "C16")],
+    "C16": [unit_std("C16", "accumulate_vector"), unit_std("C16", "apply_vector"), unit_std("C16", "have_stats"), unit_std_tensor("C16"), unit_std_apply_tensor("C16"), _lazy("contracts.standardize", "unit_dispatch", "C16"), _lazy("contracts.standardize_init", "unit_init", "C16")],
     "C17": [unit_std("C17", "accumulate_vector"), _lazy("contracts.standardize", "unit_sanitize_accepts_saved", "C17"), unit_readers("C17"),
             _lazy("contracts.standardize_save", "unit_save", "C17"), _lazy("contracts.standardize_init", "unit_init", "C17")],
     "C08": [unit_alias_arg("C08"), _lazy("contracts.alias", "unit_from_alias", "C08"), _lazy("contracts.alias", "unit_registry", "C08"), _lazy("contracts.alias", "unit_nested", "C08")],
@@ -527,8 +527,8 @@ UNITS = {
     "C05": [unit_tri("C05", "init"), unit_tri("C05", "truncated"), unit_fbank("C05", "init"), unit_fbank("C05", "truncated"), unit_gabor("C05"), unit_gamma_prefix("C05"), _lazy("contracts.filters_gamma", "unit_gamma_loop", "C05"), _lazy("contracts.purity", "unit_purity", "C05"), _lazy("contracts.accessors", "unit_accessors", "C05")],
     "C06": [unit_tri("C06", "frequency"), unit_fbank("C06", "frequency"), _lazy("contracts.filters_gabor", "unit_resp_length", "C06"), _lazy("contracts.filters_gabor", "unit_trunc_shape", "C06"), _lazy("contracts.filters_gabor", "unit_gamma_trunc_shape", "C06"), unit_tri("C06", "truncated"), unit_tri("C06", "init"), unit_fbank("C06", "truncated"), unit_fbank("C06", "init"), _lazy("contracts.purity", "unit_purity", "C06")],
     "C14": [unit_torch_stft("C14"), unit_torch_wrappers("C14"), _lazy("contracts.torch_wrappers", "unit_from_stft", "C14"), _lazy("contracts.torch_wrappers", "unit_stft_module", "C14"), _lazy("contracts.torch_wrappers", "unit_stft_module_init", "C14"), _lazy("contracts.accessors", "unit_torch_small", "C14")],
-    "C09": [unit_torch_stft("C09")] + [_lazy_list("contracts.cli", "units", "C09", k) for k in range(8)] + [_lazy("contracts.cli", "unit_config_type", "C09")],
-    "C10": [_lazy_list("contracts.cli", "units", "C10", k) for k in range(6)] + [_lazy("contracts.purity", "unit_purity", "C10")],
+    "C09": [unit_torch_stft("C09")] + [_lazy_list("contracts.cli", "units", "C09", k) for k in range(8)] + [_lazy("contracts.cli", "unit_config_type", "C09"), _lazy("contracts.accessors", "unit_dataset", "C09")],
+    "C10": [_lazy_list("contracts.cli", "units", "C10", k) for k in range(6)] + [_lazy("contracts.purity", "unit_purity", "C10"), _lazy("contracts.accessors", "unit_dataset", "C10")],
     "C19": [_scales("C19"), _lazy("contracts.accessors", "unit_ctors", "C19")],
     "C02": [unit_stft_frame("C02"), unit_stft_geometry("C02"), _lazy("contracts.stft_frame", "unit_base_computer", "C02"), unit_stft("C02", "full"), unit_tri("C02", "init"), unit_tri("C02", "truncated"), unit_fbank("C02", "init"), unit_fbank("C02", "truncated"), _lazy("contracts.accessors", "unit_accessors", "C02")],
     "C01": [unit_stft("C01", "finalize"), unit_stft("C01", "chunk"), unit_fbf("C01")] + [unit_si("C01", w) for w in ("chunk", "handle_skip", "finalize", "full")] + [unit_si_frame("C01", w) for w in ("fill", "frame", "dft")],
